@@ -13,7 +13,7 @@ N(big) == IF Tier = "quick" THEN (IF big THEN 60 ELSE 12) ELSE (IF big THEN 1500
 
 Common == {"valid", "xplusp", "nonsubgroup", "offcurve", "random"}
 YSide  == {"yhalf", "yhalf64", "yhalf128", "yhalf192", "ytop"}     \* points built from the y side: boundary of the sign choice, limb by limb
-Edge   == {"zero", "one", "p-1", "p", "max", "small", "short", "long", "empty", "half"}
+Edge   == {"zero", "one", "p-1", "p", "max", "small", "short", "long", "empty", "half", "crossfmt", "double", "xpad"}
 UncOnly == {"wrongsign", "yplusp", "yother", "yzero", "yhalf_wrong"}
 Cases == {[fn |-> f, cls |-> c, n |-> N(TRUE)] : f \in {"SetBytes", "SetBytesUncompressed", "ReadPoint"}, c \in Common}
          \cup {[fn |-> f, cls |-> c, n |-> N(FALSE)] : f \in {"SetBytes", "SetBytesUncompressed", "ReadPoint"}, c \in Edge}
